@@ -161,6 +161,28 @@ pub fn run_cobs(a: &Args) {
 }
 
 // ------------------------------------------------------------------------------------------ CRC
+/// CRC-checked decoding from a byte reader: CrcModifier over the std::io reader flavour (pieces of 1..3 bytes)
+fn crc_call_reader(alg: &NamedAlg, target: &Shape, input: &[u8]) -> J {
+    use postcard::de_flavors::crc::CrcModifier;
+    use postcard::de_flavors::io::io::IOReader;
+    use serde::de::DeserializeSeed;
+    let mut scratch = vec![0u8; input.len() + 32];
+    let mut rd = crate::transport::Io::reader(input, vec![1, 3, 2], None);
+    let r = catch(|| -> postcard::Result<Val> {
+        crate::with_digest!(alg, |d| {
+            let fl = CrcModifier::new(IOReader::new(&mut rd, &mut scratch[..]), d);
+            let mut de = postcard::Deserializer::from_flavor(fl);
+            let v = Seed(target).deserialize(&mut de)?;
+            let _ = de.finalize()?;
+            Ok(v)
+        })
+    });
+    match r {
+        Ok(Ok(v)) => json!([1, v.to_json(), (input.len() - rd.pos) as i64]),
+        Ok(Err(e)) => json!([0, errname(&e)]),
+        Err(p) => json!([0, "panic", p]),
+    }
+}
 fn crc_call(alg: &NamedAlg, target: &Shape, input: &[u8], take: bool) -> J {
     use postcard::de_flavors::crc as dc;
     let g = Guarded::from(input, true);
@@ -324,7 +346,15 @@ pub fn run_crc(a: &Args) {
             }
             cases.push(("random".into(), m));
         }
-        let outs: Vec<J> = cases.iter().enumerate().map(|(j, (k, inp))| json!([k, jb(inp), crc_call(alg, t, inp, j % 2 == 0), (j % 2 == 0) as u8])).collect();
+        // entry: take_from_bytes_uN (1), from_bytes_uN (0), or the CRC modifier over a byte reader (2; reports the unread bytes like take)
+        let outs: Vec<J> = cases
+            .iter()
+            .enumerate()
+            .map(|(j, (k, inp))| match j % 5 {
+                4 => json!([k, jb(inp), crc_call_reader(alg, t, inp), 2]),
+                m => json!([k, jb(inp), crc_call(alg, t, inp, m % 2 == 0), (m % 2 == 0) as u8]),
+            })
+            .collect();
         out.ev(json!({"op":"crc_deb","alg":aj,"target":t.to_json(),"value":v.to_json(),"frame":jb(&frame),"cases":outs}));
     }
     out.flush();
